@@ -835,7 +835,9 @@ func (w *ammWorld) opAdd(u sdk.AccAddress, sym string, n, e *big.Int) {
 	signer := u.String()
 	if w.rng.Chance(1, 8) {
 		signer = strings.ToUpper(signer)
-		class += ".spelled"
+		if class == "add" { // an empty-side add keeps its own class (known finding F17 is identified by it)
+			class += ".spelled"
+		}
 	}
 	w.tx(fmt.Sprintf("add %s %s %s %s", u, sym, n, e), class, func(ctx sdk.Context) (string, error) {
 		m := &clptypes.MsgAddLiquidity{Signer: signer, ExternalAsset: asset(sym), NativeAssetAmount: uintOf(n), ExternalAssetAmount: uintOf(e)}
